@@ -19,6 +19,7 @@ well-nested arrangement"; that the lexer does so for directive text is C14's bus
 import TgModel.Lemmas.PrepRefine
 import TgModel.Lemmas.ParserFinish
 import TgModel.Lemmas.PrepEnd
+import TgModel.Lemmas.PrepRender
 import TgModel.Grammar
 
 namespace Tg.C15
@@ -269,5 +270,147 @@ example : ∃ items : Items, items.ok = true ∧
       (.cons (.tok .ws) (.cons (.tok (.id ['a'])) (.cons (.tok .ws) .nil))) true
       (.cons (.tok .ws) (.cons (.tok (.other .Error ['"', '\n'])) .nil))) .nil)), by decide, ?_⟩
   decide +kernel
+
+/-! ### from text: the hypothesis `absToks text = items.flatten` discharged for rendered texts
+
+`Render.SItems` (PrepRender.lean) is a source-level arrangement: payload tokens — any token of the
+language reference (`LexSpec.SpecTok`, C14), blank runs, line comments, nested block comments, a
+string literal running into the end of its line (lexically invalid) — `#define` gap name, and
+conditionals `#ifdef`/`#ifndef` gap name … [`#else` …] `#endif` nested to any depth; `render` is
+its text, `toItems` the abstract arrangement (`PP.Items`) the theorems above speak about.
+`Render.Text` adds conditionals still open at the end.  The side condition `wf` is decidable:
+gaps hold only blanks/comments; every token is well-formed (macro names are identifiers of the
+reference — digit-leading ones included, reserved words excluded — which is what `process_if`
+accepts: kind `Id`); a reference token or directive keyword is followed by a blank/comment or ends
+the text (`+`/`-` do not end it), blank runs are maximal, a line comment is followed by its line
+terminator or ends the text.  `Render.SItems.absToks_render` / `Render.Text.absToks_render` prove
+with the maximal-munch lemmas of C14 that the lexer model splits the text into exactly that
+arrangement. -/
+
+/-- **selection, from text**: the tokens delivered for the text of a well-nested source
+arrangement are exactly those the reference evaluation selects -/
+theorem prep_selects_text (s : Render.SItems) (h : s.wf = true) :
+    ∃ n toks, Src.runAll n (Src.init s.render) = some toks ∧ Src.delivered toks = (s.toItems.ref []).1 := by
+  obtain ⟨hok, hflat⟩ := Render.SItems.absToks_render s h
+  exact prep_selects s.render s.toItems hok hflat
+
+/-- … and for a text that ends inside conditionals -/
+theorem prep_selects_unterminated_text (t : Render.Text) (h : t.wf = true) :
+    ∃ n toks, Src.runAll n (Src.init t.render) = some toks ∧
+      Src.delivered toks = (t.pre.toItems.ref []).1 ++
+        Frames.ref (t.pre.toItems.ref []).2 (t.frames.map Render.SFrame.toFrame) := by
+  obtain ⟨hok, hfs, hflat⟩ := Render.Text.absToks_render t h
+  exact prep_selects_unterminated t.render t.pre.toItems hok _ hfs hflat
+
+/-- **unterminated ⇒ parked, from text** -/
+theorem unterminated_parked_text (t : Render.Text) (h : t.wf = true) (hne : t.frames ≠ []) :
+    ∃ n s, Src.drain n (Src.init t.render) = some s ∧ (s.takeError).1 = some eofMsg := by
+  obtain ⟨hok, hfs, hflat⟩ := Render.Text.absToks_render t h
+  exact unterminated_parked t.render t.pre.toItems hok _ hfs (by simpa using hne) hflat
+
+/-- **unterminated ⇒ reported, from text**: whenever the parser model returns a result for a text
+that ends inside at least one conditional, its last error is "reached EOF without matching
+#endif" at (len, len) -/
+theorem unterminated_reported_text (t : Render.Text) (h : t.wf = true) (hne : t.frames ≠ [])
+    (r : Grammar.ParseResult) (hp : Grammar.parse t.render = .ok r) :
+    ∃ es, r.errors = es ++ [{ start := byteLen t.render, stop := byteLen t.render, msg := eofMsg }] := by
+  obtain ⟨hok, hfs, hflat⟩ := Render.Text.absToks_render t h
+  exact unterminated_reported t.render t.pre.toItems hok _ hfs (by simpa using hne) hflat r hp
+
+/-- **well-nested ⇒ nothing left, from text** -/
+theorem wellnested_clean_text (s : Render.SItems) (h : s.wf = true) :
+    ∃ n st, Src.drain n (Src.init s.render) = some st ∧ st.openConds = 0 ∧ st.prepErr = none ∧ st.lexErr = none ∧
+      (st.takeError).1 = none := by
+  obtain ⟨hok, hflat⟩ := Render.SItems.absToks_render s h
+  exact wellnested_clean s.render s.toItems hok hflat
+
+/-- … hence `ParserBase::finish` appends nothing: the errors reported for the text of a
+well-nested arrangement are those of the grammar run alone -/
+theorem wellnested_no_eof_error_text (s : Render.SItems) (h : s.wf = true)
+    (r : Grammar.ParseResult) (hp : Grammar.parse s.render = .ok r) :
+    endErrors s.render = [] ∧
+    ∃ st, exec Grammar.defs Tables.recoverTokens (Grammar.parseFuel s.render) (.call .source_file)
+        (PState.init s.render) = .ok st ∧ r.errors = st.errors.reverse := by
+  obtain ⟨hok, hflat⟩ := Render.SItems.absToks_render s h
+  exact wellnested_no_eof_error s.render s.toItems hok hflat r hp
+
+/-! non-vacuity: a three-level nesting with `#else` at two levels, a `#define`, comments in a gap
+and after a name, and a lexically invalid line inside the `#ifndef` branch -/
+
+open Render LexSpec in
+/-- innermost conditional: `#ifdef A // deep⏎1⏎#else⏎2⏎#endif` -/
+def sampleInner : SItem :=
+  .cond false [.blank [' ']] ['A']
+    (.cons (.pay (.blank [' '])) (.cons (.pay (.lineComment [' ', 'd', 'e', 'e', 'p'])) (.cons (.pay (.blank ['\n']))
+      (.cons (.pay (.spec (.decInt .none ['1']))) (.cons (.pay (.blank ['\n'])) .nil)))))
+    true
+    (.cons (.pay (.blank ['\n'])) (.cons (.pay (.spec (.decInt .none ['2']))) (.cons (.pay (.blank ['\n'])) .nil)))
+
+open Render LexSpec in
+/-- middle conditional: `#ifndef B /* c */⏎"bad⏎` inner `⏎#else⏎y⏎#endif` -/
+def sampleMiddle : SItem :=
+  .cond true [.blank [' ']] ['B']
+    (.cons (.pay (.blank [' '])) (.cons (.pay (.blockComment (.ch ' ' (.ch 'c' (.ch ' ' .nil)))))
+      (.cons (.pay (.blank ['\n'])) (.cons (.pay (.badStr [.ch 'b', .ch 'a', .ch 'd'] false))
+        (.cons sampleInner (.cons (.pay (.blank ['\n'])) .nil))))))
+    true
+    (.cons (.pay (.blank ['\n'])) (.cons (.pay (.spec (.ident ['y']))) (.cons (.pay (.blank ['\n'])) .nil)))
+
+open Render LexSpec in
+def sampleItems : SItems :=
+  .cons (.define [.blank [' ']] ['A']) (.cons (.pay (.blank ['\n']))
+    (.cons (.cond false [.blank [' ']] ['A']
+      (.cons (.pay (.blank ['\n'])) (.cons (.pay (.spec (.ident ['x']))) (.cons (.pay (.blank [' ']))
+        (.cons (.pay (.spec (.punct .semi))) (.cons (.pay (.blank ['\n']))
+          (.cons sampleMiddle (.cons (.pay (.blank ['\n'])) .nil)))))))
+      false .nil) .nil))
+
+theorem sampleItems_wf : sampleItems.wf = true := by decide +kernel
+
+/-- the rendered sample is this text -/
+theorem sampleItems_text : sampleItems.render =
+    ['#', 'd', 'e', 'f', 'i', 'n', 'e', ' ', 'A', '\n', '#', 'i', 'f', 'd', 'e', 'f', ' ', 'A', '\n', 'x',
+     ' ', ';', '\n', '#', 'i', 'f', 'n', 'd', 'e', 'f', ' ', 'B', ' ', '/', '*', ' ', 'c', ' ', '*', '/',
+     '\n', '"', 'b', 'a', 'd', '\n', '#', 'i', 'f', 'd', 'e', 'f', ' ', 'A', ' ', '/', '/', ' ', 'd', 'e',
+     'e', 'p', '\n', '1', '\n', '#', 'e', 'l', 's', 'e', '\n', '2', '\n', '#', 'e', 'n', 'd', 'i', 'f',
+     '\n', '#', 'e', 'l', 's', 'e', '\n', 'y', '\n', '#', 'e', 'n', 'd', 'i', 'f', '\n', '#', 'e', 'n',
+     'd', 'i', 'f'] := by decide +kernel
+
+/-- so the theorems apply to it: with `A` defined and `B` not, the delivered tokens are `x ;`, the
+invalid string of the `#ifndef B` branch, `1` — and the blanks/comments around them -/
+example : ∃ n toks, Src.runAll n (Src.init sampleItems.render) = some toks ∧
+    Src.delivered toks = (sampleItems.toItems.ref []).1 :=
+  prep_selects_text sampleItems sampleItems_wf
+
+example : ((sampleItems.toItems.ref []).1.filter fun k => !k.isTrivia) =
+    [.id ['x'], .other .Semi [';'], .other .Error ['"', 'b', 'a', 'd', '\n'], .other .IntVal ['1']] := by
+  decide +kernel
+
+/-- the same text cut off after `2⏎` (inside the `#else` part of the innermost conditional, three
+conditionals open): well-formed as a `Render.Text`, hence reported -/
+def sampleOpen : Render.Text :=
+  open Render LexSpec in
+  { pre := .cons (.define [.blank [' ']] ['A']) (.cons (.pay (.blank ['\n'])) .nil),
+    frames := [
+      { neg := false, gap := [.blank [' ']], m := ['A'],
+        thn := .cons (.pay (.blank ['\n'])) (.cons (.pay (.spec (.ident ['x']))) (.cons (.pay (.blank ['\n'])) .nil)),
+        hasElse := false, els := .nil },
+      { neg := true, gap := [.blank [' ']], m := ['B'],
+        thn := .cons (.pay (.blank ['\n'])) .nil, hasElse := false, els := .nil },
+      { neg := false, gap := [.blank [' ']], m := ['A'],
+        thn := .cons (.pay (.blank ['\n'])) (.cons (.pay (.spec (.decInt .none ['1']))) (.cons (.pay (.blank ['\n'])) .nil)),
+        hasElse := true,
+        els := .cons (.pay (.blank ['\n'])) (.cons (.pay (.spec (.decInt .none ['2']))) (.cons (.pay (.blank ['\n'])) .nil)) }] }
+
+theorem sampleOpen_wf : sampleOpen.wf = true := by decide +kernel
+
+theorem sampleOpen_text : sampleOpen.render =
+    ['#', 'd', 'e', 'f', 'i', 'n', 'e', ' ', 'A', '\n', '#', 'i', 'f', 'd', 'e', 'f', ' ', 'A', '\n', 'x',
+     '\n', '#', 'i', 'f', 'n', 'd', 'e', 'f', ' ', 'B', '\n', '#', 'i', 'f', 'd', 'e', 'f', ' ', 'A', '\n',
+     '1', '\n', '#', 'e', 'l', 's', 'e', '\n', '2', '\n'] := by decide +kernel
+
+example (r : Grammar.ParseResult) (hp : Grammar.parse sampleOpen.render = .ok r) :
+    ∃ es, r.errors = es ++ [{ start := byteLen sampleOpen.render, stop := byteLen sampleOpen.render, msg := eofMsg }] :=
+  unterminated_reported_text sampleOpen sampleOpen_wf (by decide) r hp
 
 end Tg.C15
